@@ -65,20 +65,22 @@ CellClass(c, j) ==
         [kind |-> IF Len(r) <= c.order THEN "short" ELSE "run", seam |-> c.pbc /\ CrossesSeam(r, c.L)]
 
 (* ---- actions ----------------------------------------------------------------------- *)
+(* queries are issued from the fresh field only: they do not change it                  *)
+Fresh == act[1] = "new"
 Init == cfg \in Configs /\ act = <<"new">> /\ obs = [valid |-> cfg.valid]
 
-QDiffUnit == /\ act' = <<"diff_unit">>
+QDiffUnit == /\ Fresh
+             /\ act' = <<"diff_unit">>
              /\ obs' = [m |-> RefMatrix(cfg.valid, cfg.order, cfg.pbc, cfg.r2v), valid |-> cfg.valid,
                         code |-> CodeMatrix(cfg.valid, cfg.order, cfg.pbc, cfg.r2v)]
              /\ UNCHANGED cfg
-QDiffData == \E w \in Variants :
+QDiffData == Fresh /\ \E w \in Variants :
              /\ act' = <<"diff_data", w>>
              /\ obs' = [f |-> Data(cfg, w), out |-> Diff(cfg, Data(cfg, w)), valid |-> cfg.valid,
                         cls |-> [j \in 1 .. cfg.L |-> CellClass(cfg, j)]]
              /\ UNCHANGED cfg
 
-Fresh == act[1] = "new"
-Next == Fresh /\ (QDiffUnit \/ QDiffData)
+Next == QDiffUnit \/ QDiffData
 Spec == Init /\ [][Next]_vars
 
 (* ---- the property, clause by clause ------------------------------------------------ *)
@@ -109,4 +111,12 @@ C04_Linear == act[1] = "diff_data" =>
 C04_ExactOnRunPolynomials == act[1] = "diff_data" => obs.out = ExactOut(cfg, act[2])
 (* validity is kept                                                                     *)
 C04_KeepsValidity == obs.valid = cfg.valid
+
+(* NOT part of the property and expected to be VIOLATED (C04_d13.cfg): the transcription  *)
+(* of what Field.diff does today in a periodic direction (wrap-pad ONE cell, split,       *)
+(* crop) does not commute with cyclic shifts once a run crosses the seam - the model-     *)
+(* level witness of the known finding D13.                                                *)
+D13_TodaysCodeCommutesWithShifts == IsUnit /\ cfg.pbc =>
+      LET Ms == [s \in 1 .. cfg.L |-> CodeMatrix(Roll(cfg.valid, s - 1), cfg.order, cfg.pbc, cfg.r2v)]
+      IN ShiftCommutesOn(Ms, LAMBDA s, i : TRUE)
 =============================================================================
